@@ -544,8 +544,8 @@ VARIANTS = [
   ("drop-undo-addcolumn", D,
    "    self._engine.out_actions.undo.append(actions.RemoveColumn(table_id, col_id))\n", "", "C01-R1"),
   ("undo-only-when-values", D,
-   "    # Generate the undo action.\n    self._engine.out_actions.undo.append(\n        actions.BulkUpdateRecord(table_id, row_ids, undo_values).simplify())",
-   "    # Generate the undo action.\n    if undo_values:\n      self._engine.out_actions.undo.append(\n        actions.BulkUpdateRecord(table_id, row_ids, undo_values).simplify())\n    else:\n      return",
+   "    self._engine.out_actions.undo.append(\n        actions.BulkUpdateRecord(table_id, row_ids, undo_values).simplify())\n\n    # Load the updated values.",
+   "    if any(undo_values.values()):\n      self._engine.out_actions.undo.append(\n        actions.BulkUpdateRecord(table_id, row_ids, undo_values).simplify())\n\n    # Load the updated values.",
    "C01-R1"),
   ("rename-undo-not-swapped", D,
    "actions.RenameColumn(table_id, new_col_id, old_col_id)", "actions.RenameColumn(table_id, old_col_id, new_col_id)", "C01-R2"),
@@ -561,21 +561,61 @@ VARIANTS = [
 """, "    undo_action = actions.BulkAddRecord(*table_data).simplify()\n",
    "C01-R2"),
   ("read-after-set", D,
-   """      undo_values[col_id] = [col.raw_get(r) for r in row_ids]
+   """    # Collect the undo values.
+    undo_values = {}
+    for col_id in columns:
+      col = table.get_column(col_id)
+      undo_values[col_id] = [col.raw_get(r) for r in row_ids]
+
+    # Generate the undo action. This is done before changing anything, so that if we fail
+    # part-way (e.g. on an unknown column), the changes already made can be reverted.
+    self._engine.out_actions.undo.append(
+        actions.BulkUpdateRecord(table_id, row_ids, undo_values).simplify())
+
+    # Load the updated values.
+    for col_id, values in columns.items():
+      col = table.get_column(col_id)
       for (row_id, value) in zip(row_ids, values):
         col.set(row_id, value)
-""", """      for (row_id, value) in zip(row_ids, values):
+""", """    undo_values = {}
+    for col_id, values in columns.items():
+      col = table.get_column(col_id)
+      for (row_id, value) in zip(row_ids, values):
         col.set(row_id, value)
       undo_values[col_id] = [col.raw_get(r) for r in row_ids]
+    self._engine.out_actions.undo.append(
+        actions.BulkUpdateRecord(table_id, row_ids, undo_values).simplify())
+    for col_id, values in columns.items():
+      col = table.get_column(col_id)
 """, "C01-R3"),
   ("read-fused-into-set-loop", D,
-   """      undo_values[col_id] = [col.raw_get(r) for r in row_ids]
+   """    # Collect the undo values.
+    undo_values = {}
+    for col_id in columns:
+      col = table.get_column(col_id)
+      undo_values[col_id] = [col.raw_get(r) for r in row_ids]
+
+    # Generate the undo action. This is done before changing anything, so that if we fail
+    # part-way (e.g. on an unknown column), the changes already made can be reverted.
+    self._engine.out_actions.undo.append(
+        actions.BulkUpdateRecord(table_id, row_ids, undo_values).simplify())
+
+    # Load the updated values.
+    for col_id, values in columns.items():
+      col = table.get_column(col_id)
       for (row_id, value) in zip(row_ids, values):
         col.set(row_id, value)
-""", """      undo_values[col_id] = old_values = []
+""", """    undo_values = {}
+    for col_id, values in columns.items():
+      col = table.get_column(col_id)
+      undo_values[col_id] = old_values = []
       for (row_id, value) in zip(row_ids, values):
         old_values.append(col.raw_get(row_id))
         col.set(row_id, value)
+    self._engine.out_actions.undo.append(
+        actions.BulkUpdateRecord(table_id, row_ids, undo_values).simplify())
+    for col_id, values in columns.items():
+      col = table.get_column(col_id)
 """, "C01-R3"),
   ("undo-forward", U, "for undo_action in reversed(undo_actions):", "for undo_action in undo_actions:", "C01-R4"),
   ("direct-not-trimmed", "sandbox/grist/engine.py", "      del self.out_actions.direct[len_stored:]\n", "", "C01-R5"),
